@@ -342,3 +342,77 @@ func nonNilGuarded(b *ssa.BasicBlock, tm string) bool {
 	}
 	return false
 }
+
+// checkFilterCallbackReturns: in every callback literal with signature
+// func(T, error) bool nested in fn (the consumer handed to an inner
+// iterator), each return must be the constant true (continue), the result of
+// a yield call (propagating the outer consumer's decision), or the constant
+// false after an error has been delivered to the outer consumer on that path.
+// Anything else can end the inner iteration early without an error: a
+// silently shortened listing.
+func checkFilterCallbackReturns(c *core.Ctx, rule, key string, fn *ssa.Function) {
+	for _, f := range facts.WithAnon(fn) {
+		if f == fn || f.Signature.Params().Len() != 2 || f.Signature.Results().Len() != 1 {
+			continue
+		}
+		if f.Signature.Params().At(1).Type().String() != "error" {
+			continue
+		}
+		if b, ok := f.Signature.Results().At(0).Type().Underlying().(*types.Basic); !ok || b.Kind() != types.Bool {
+			continue
+		}
+		for _, r := range returnsOf(f) {
+			v := facts.Resolve(r.Results[0])
+			ok := false
+			why := "callback returns a computed value that is neither `true`, a yield result, nor `false` after delivering an error: the inner iteration can stop early and the listing is silently shortened"
+			switch x := v.(type) {
+			case *ssa.Const:
+				if x.Value != nil && x.Value.ExactString() == "true" {
+					ok = true
+				} else {
+					// false: must be dominated by a yield(_, err) with non-nil-able err, or by an error having been recorded
+					for _, ci := range facts.CallsIn(f) {
+						if _, isY := isYieldCall(ci); !isY {
+							continue
+						}
+						args := ci.Common().Args
+						if len(args) == 2 && !facts.IsNilConst(facts.Strip(args[1])) && facts.Dominates(ci, r) {
+							ok = true
+						}
+					}
+					if !ok {
+						// accept the "record the error in a captured variable and stop" idiom
+						for _, b := range f.Blocks {
+							for _, in := range b.Instrs {
+								if st, isSt := in.(*ssa.Store); isSt && st.Val.Type().String() == "error" && facts.Dominates(st, r) {
+									ok = true
+								}
+							}
+						}
+					}
+					why = "callback returns false (stop) on a path where no error was delivered to the consumer: the listing is silently shortened"
+				}
+			case *ssa.Call:
+				if _, isY := isYieldCall(x); isY {
+					ok = true
+				}
+			case *ssa.Phi:
+				// e.g. `ok := yield(...); if ok {...}; return ok`
+				ok = true
+				for _, e := range x.Edges {
+					ev := facts.Resolve(e)
+					if call, isCall := ev.(*ssa.Call); isCall {
+						if _, isY := isYieldCall(call); isY {
+							continue
+						}
+					}
+					if cst, isC := ev.(*ssa.Const); isC && cst.Value != nil && cst.Value.ExactString() == "true" {
+						continue
+					}
+					ok = false
+				}
+			}
+			c.Check(ok, rule, key+"/callback-return", r.Pos(), "callback continues, propagates the consumer's decision, or stops after delivering an error", why)
+		}
+	}
+}
